@@ -51,7 +51,7 @@ func loadBaseline(cfg Config) *Baseline {
 
 func clauseTags(c *Contract) map[string]bool {
 	tags := map[string]bool{}
-	for _, cls := range [][]*Clause{c.Requires, c.Ensures, c.Invs, c.Asserts, c.OnPanic} {
+	for _, cls := range [][]*Clause{c.Requires, c.Ensures, c.Invs, c.Asserts, c.OnPanic, c.LineHooks} {
 		for _, cl := range cls {
 			for _, t := range cl.Tags {
 				tags[t] = true
